@@ -1,6 +1,649 @@
-//! driver stub (filled in by its check)
+//! C17: beacons round-trip, are found inside arbitrary text, respect age and password.
+//! `beacon roundtrip <quick|thorough> <trace>`  encode/decode at the same hour: all 65 536 hour stamps for one list (four
+//!        in thorough), 200 passwords x 45 list shapes (0..8 IPv4, 0..4 IPv6) at sampled hours (1 / 4 per cell)
+//! `beacon age <quick|thorough> <trace>`        encode at `then`, decode at `now` with limit `ttl`: boundary stamps for the
+//!        limits {0,1,24,50,32767,32768,65535} and random ones, one full sweep over all 65 536 clocks
+//! `beacon embed <quick|thorough> <trace>`      token sequences of Beacon.tla instantiated as text (all up to a length,
+//!        sampled beyond), beacons of other passwords, arbitrary text
+//! Events carry all inputs and what BeaconSerializer::decode returned; panics are results.
+use super::util::*;
+use crate::beacon::BeaconSerializer;
+use crate::util::{from_base62, MockTimeSource};
+use rand::{seq::SliceRandom, Rng};
 use serde_json::{json, Value};
+use std::net::{IpAddr, Ipv4Addr, Ipv6Addr, SocketAddr};
 
-pub fn run(_args: &[String]) -> Value {
-    json!({"error": "not implemented"})
+type Ser = BeaconSerializer<MockTimeSource>;
+
+const NO_LIMIT: u32 = 65536;
+pub const KINDS: [&str; 11] = ["junk", "sep", "beacon", "wrongpw", "old", "begin", "end", "pbegin", "pend", "ovbe", "oveb"];
+/// the token alphabet of MC_Beacon (two beacon entries: two different lists)
+const ALPHA: [&str; 12] = ["junk", "sep", "beacon", "beacon", "wrongpw", "old", "begin", "end", "pbegin", "pend", "ovbe", "oveb"];
+const SEPS: [&str; 16] = [" ", "\n", "\t", "-", ".", ":", "/", "_", "=", "+", "\"", "{", "é", "—", "密", "٣"];
+const ALNUM: &[u8] = b"0123456789ABCDEFGHIJKLMNOPQRSTUVWXYZabcdefghijklmnopqrstuvwxyz";
+
+fn set_hour(hour: u32, rng: &mut impl Rng) {
+    // the clock is not limited to 16 bits of hours; seconds within the hour are arbitrary
+    let k: i64 = *[0i64, 0, 7, 1, 100].choose(rng).unwrap();
+    MockTimeSource::set_time((hour as i64 + 65536 * k) * 3600 + rng.gen_range(0..3600));
+}
+
+fn ttl_opt(ttl: u32) -> Option<u16> {
+    if ttl >= NO_LIMIT {
+        None
+    } else {
+        Some(ttl as u16)
+    }
+}
+
+fn passwords() -> Vec<Vec<u8>> {
+    let mut p: Vec<Vec<u8>> = vec![
+        b"".to_vec(),
+        b"mysecretkey".to_vec(),
+        b"a".to_vec(),
+        b" ".to_vec(),
+        b"password".to_vec(),
+        "pässwörd".as_bytes().to_vec(),
+        "密码".as_bytes().to_vec(),
+        "🔑".as_bytes().to_vec(),
+        vec![0u8],
+        vec![0xff, 0xfe, 0x00, 0x80],
+        vec![b'x'; 1024],
+        vec![b'y'; 127],
+        vec![b'y'; 128],
+        vec![b'y'; 125],
+    ];
+    let mut i = 0;
+    while p.len() < 200 {
+        p.push(format!("pw{}", i).into_bytes());
+        i += 1;
+    }
+    p
+}
+
+struct Markers {
+    begin: String,
+    end: String,
+}
+
+fn markers(ser: &Ser) -> Markers {
+    let e = ser.encode(&[]);
+    Markers { begin: e[..5].to_string(), end: e[e.len() - 5..].to_string() }
+}
+
+/// largest k in 1..=4 such that the last k characters of a are the first k characters of b (0: none)
+fn overlap(a: &str, b: &str) -> usize {
+    (1..=4).rev().find(|k| a[5 - k..] == b[..*k]).unwrap_or(0)
+}
+
+fn rand_v4(rng: &mut impl Rng) -> SocketAddr {
+    let ip = match rng.gen_range(0..10) {
+        0 => Ipv4Addr::new(0, 0, 0, 0),
+        1 => Ipv4Addr::new(255, 255, 255, 255),
+        2 => Ipv4Addr::new(0, 0, 0, rng.gen()),
+        3 => Ipv4Addr::new(127, 0, 0, 1),
+        _ => Ipv4Addr::from(rng.gen::<u32>()),
+    };
+    let port = match rng.gen_range(0..8) {
+        0 => 0,
+        1 => 65535,
+        2 => 3210,
+        _ => rng.gen(),
+    };
+    SocketAddr::new(IpAddr::V4(ip), port)
+}
+
+fn rand_v6(rng: &mut impl Rng) -> SocketAddr {
+    let ip = match rng.gen_range(0..10) {
+        0 => Ipv6Addr::UNSPECIFIED,
+        1 => Ipv6Addr::LOCALHOST,
+        2 => Ipv4Addr::from(rng.gen::<u32>()).to_ipv6_mapped(),
+        3 => Ipv6Addr::new(0xfe80, 0, 0, 0, 0, 0, 0, rng.gen()),
+        4 => Ipv6Addr::new(0xffff, 0xffff, 0xffff, 0xffff, 0xffff, 0xffff, 0xffff, 0xffff),
+        _ => Ipv6Addr::from(rng.gen::<u128>()),
+    };
+    let port = match rng.gen_range(0..8) {
+        0 => 0,
+        1 => 65535,
+        _ => rng.gen(),
+    };
+    SocketAddr::new(IpAddr::V6(ip), port)
+}
+
+/// list with n4 IPv4 and n6 IPv6 entries in mixed order
+fn rand_list(rng: &mut impl Rng, n4: usize, n6: usize) -> Vec<SocketAddr> {
+    let mut l: Vec<SocketAddr> = vec![];
+    for _ in 0..n4 {
+        l.push(rand_v4(rng));
+    }
+    for _ in 0..n6 {
+        l.push(rand_v6(rng));
+    }
+    l.shuffle(rng);
+    l
+}
+
+fn strs(l: &[SocketAddr]) -> Vec<String> {
+    l.iter().map(|a| a.to_string()).collect()
+}
+
+/// decode under panic capture: (res, addresses, panic message)
+fn decode(ser: &Ser, text: &str, ttl: u32) -> (&'static str, Vec<SocketAddr>, String) {
+    match guarded(|| ser.decode(text, ttl_opt(ttl))) {
+        Ok(v) => ("ok", v, String::new()),
+        Err(p) => ("panic", vec![], p),
+    }
+}
+
+fn plain_len(n4: usize, n6: usize) -> usize {
+    4 + 6 * n4 + 18 * n6
+}
+
+/// number of bytes the body text decodes to (classification only: shorter than the plain length = leading zero lost)
+fn body_bytes(beacon: &str) -> i64 {
+    if beacon.len() < 10 {
+        return -1;
+    }
+    from_base62(&beacon[5..beacon.len() - 5]).map(|v| v.len() as i64).unwrap_or(-1)
+}
+
+struct RtStat {
+    events: u64,
+    lost: u64,
+}
+
+fn roundtrip_event(t: &mut Trace, st: &mut RtStat, ser: &Ser, pw: usize, hour: u32, ttl: u32, list: &[SocketAddr], fam: &str) -> bool {
+    let (n4, n6) = (list.iter().filter(|a| a.is_ipv4()).count(), list.iter().filter(|a| a.is_ipv6()).count());
+    let enc = guarded(|| ser.encode(list));
+    let (res, got, text, why) = match enc {
+        Ok(text) => {
+            let (res, got, why) = decode(ser, &text, ttl);
+            (res, got, text, why)
+        }
+        Err(p) => ("panic", vec![], String::new(), p),
+    };
+    let mut g = strs(&got);
+    let mut a = strs(list);
+    g.sort();
+    a.sort();
+    let same = g == a;
+    st.events += 1;
+    st.lost += (!same) as u64;
+    t.ev(json!({"op":"roundtrip","fam":fam,"pw":pw,"hour":hour,"ttl":ttl,"v4":n4,"v6":n6,"addrs":strs(list),"got":strs(&got),"res":res,
+        "plain_len":plain_len(n4, n6),"body_bytes":body_bytes(&text),"text": if same { String::new() } else { text }, "why": why}));
+    same
+}
+
+pub fn run_roundtrip(quick: bool, out: &str) -> Value {
+    let mut t = Trace::create(out);
+    let mut rng = rng(170);
+    let pws = passwords();
+    let mut st = RtStat { events: 0, lost: 0 };
+    // (a) every hour stamp for one list (and three more in thorough)
+    let combos: Vec<(usize, usize, usize)> = if quick { vec![(1, 1, 1)] } else { vec![(1, 2, 1), (5, 0, 1), (17, 1, 0), (0, 3, 0)] };
+    for (pw, n4, n6) in combos {
+        let ser = Ser::new(&pws[pw]);
+        let list = rand_list(&mut rng, n4, n6);
+        for hour in 0..65536u32 {
+            set_hour(hour, &mut rng);
+            let ttl = [NO_LIMIT, 0, 50, 1][(hour % 4) as usize];
+            roundtrip_event(&mut t, &mut st, &ser, pw, hour, ttl, &list, "allhours");
+        }
+    }
+    // (b) 200 passwords x 45 shapes at sampled hours
+    let per = if quick { 1 } else { 4 };
+    for (pw, key) in pws.iter().enumerate() {
+        let ser = Ser::new(key);
+        for n4 in 0..=8usize {
+            for n6 in 0..=4usize {
+                for _ in 0..per {
+                    let list = rand_list(&mut rng, n4, n6);
+                    let hour = match rng.gen_range(0..10) {
+                        0 => 0,
+                        1 => 65535,
+                        _ => rng.gen_range(0..65536),
+                    };
+                    set_hour(hour, &mut rng);
+                    let ttl = *[NO_LIMIT, 0, 50, 65535].choose(&mut rng).unwrap();
+                    roundtrip_event(&mut t, &mut st, &ser, pw, hour, ttl, &list, "sampled");
+                }
+            }
+        }
+    }
+    let events = t.finish();
+    json!({"runs": st.events, "steps": st.events, "events": events, "lost": st.lost})
+}
+
+fn fwd(a: u32, b: u32) -> u32 {
+    (a + 65536 - b) % 65536
+}
+
+pub fn run_age(quick: bool, out: &str) -> Value {
+    let mut t = Trace::create(out);
+    let mut rng = rng(171);
+    let pws = passwords();
+    let mut steps = 0u64;
+    let mut not_rt = 0u64;
+    let mut age_ev = |t: &mut Trace, rng: &mut rand::rngs::StdRng, ser: &Ser, text: &str, rt: bool, n: usize, now: u32, then: u32, ttl: u32| {
+        set_hour(now, rng);
+        let (res, got, why) = decode(ser, text, ttl);
+        t.ev(json!({"op":"age","now":now,"then":then,"ttl":ttl,"n":n,"got_n":got.len(),"rt":rt,"res":res,"why":why}));
+    };
+    // encode at `then`; rt = decodes without limit (the round trip itself is the subject of the other family)
+    let make = |rng: &mut rand::rngs::StdRng, ser: &Ser, then: u32| -> (String, bool, usize) {
+        let (n4, n6) = (rng.gen_range(0..=3usize), rng.gen_range(0..=2usize));
+        let list = rand_list(rng, n4.max(1 - n6.min(1)), n6);
+        set_hour(then, rng);
+        let text = ser.encode(&list);
+        let (res, got, _) = decode(ser, &text, NO_LIMIT);
+        let mut g = strs(&got);
+        let mut a = strs(&list);
+        g.sort();
+        a.sort();
+        (text, res == "ok" && g == a, list.len())
+    };
+    let limits: [u32; 7] = [0, 1, 24, 50, 32767, 32768, 65535];
+    let rounds = if quick { 40 } else { 400 };
+    for round in 0..rounds {
+        let ser = Ser::new(&pws[round % pws.len()]);
+        for li in 0..limits.len() + 3 {
+            let ttl = if li < limits.len() { limits[li] } else { *[rng.gen_range(0..65536), rng.gen_range(0..200), NO_LIMIT].choose(&mut rng).unwrap() };
+            let then = match rng.gen_range(0..8) {
+                0 => 0,
+                1 => 65535,
+                2 => ttl.min(65535),
+                3 => 32768,
+                _ => rng.gen_range(0..65536),
+            };
+            let (text, rt, n) = make(&mut rng, &ser, then);
+            not_rt += (!rt) as u64;
+            let tt = ttl.min(65535);
+            let mut nows: Vec<u32> = vec![then, (then + 1) % 65536, fwd(then, 1), (then + 32768) % 65536, (then + 32767) % 65536, 0, 65535, rng.gen_range(0..65536)];
+            for d in [tt, tt + 1, tt + 2, tt.saturating_sub(1)] {
+                nows.push((then + d) % 65536);
+                nows.push(fwd(then, d % 65536));
+            }
+            for now in nows {
+                age_ev(&mut t, &mut rng, &ser, &text, rt, n, now, then, ttl);
+                steps += 1;
+            }
+        }
+    }
+    // full sweeps over all clocks
+    let sweeps: Vec<(u32, u32)> = if quick { vec![(40000, 50)] } else { vec![(40000, 50), (3, 24), (65530, 32767), (12345, 0), (777, 32768)] };
+    for (then0, ttl) in sweeps {
+        let ser = Ser::new(&pws[1]);
+        let mut then = then0;
+        let (text, n, rt_ok) = loop {
+            let (text, rt, n) = make(&mut rng, &ser, then);
+            if rt || not_rt > 2000 {
+                break (text, n, rt);
+            }
+            not_rt += 1;
+            then = (then + 1) % 65536;
+        };
+        for now in 0..65536u32 {
+            age_ev(&mut t, &mut rng, &ser, &text, rt_ok, n, now, then, ttl);
+            steps += 1;
+        }
+    }
+    let events = t.finish();
+    json!({"runs": steps, "steps": steps, "events": events, "not_roundtripping": not_rt})
+}
+
+fn rand_alnum(rng: &mut impl Rng, lo: usize, hi: usize) -> String {
+    let n = rng.gen_range(lo..=hi);
+    (0..n).map(|_| ALNUM[rng.gen_range(0..62)] as char).collect()
+}
+
+fn rand_sep(rng: &mut impl Rng) -> String {
+    let n = rng.gen_range(1..=3);
+    (0..n).map(|_| *SEPS.choose(rng).unwrap()).collect()
+}
+
+fn interleave(rng: &mut impl Rng, s: &str) -> String {
+    let mut o = String::new();
+    for c in s.chars() {
+        if rng.gen_range(0..6) == 0 {
+            o.push_str(&rand_sep(rng));
+        }
+        o.push(c);
+    }
+    o
+}
+
+fn sanitized(s: &str) -> String {
+    s.chars().filter(|c| c.is_ascii_alphanumeric()).collect()
+}
+
+/// all (overlapping) occurrences of `needle`
+fn occurrences(hay: &str, needle: &str) -> Vec<usize> {
+    let (h, n) = (hay.as_bytes(), needle.as_bytes());
+    if n.is_empty() || h.len() < n.len() {
+        return vec![];
+    }
+    (0..=h.len() - n.len()).filter(|i| &h[*i..*i + n.len()] == n).collect()
+}
+
+struct PwCtx {
+    id: i64,
+    ser: Ser,
+    m: Markers,
+    ov_be: usize,
+    ov_eb: usize,
+}
+
+fn pwctx(id: i64, key: &[u8]) -> PwCtx {
+    let ser = Ser::new(key);
+    let m = markers(&ser);
+    let (ov_be, ov_eb) = (overlap(&m.begin, &m.end), overlap(&m.end, &m.begin));
+    PwCtx { id, ser, m, ov_be, ov_eb }
+}
+
+/// A beacon of `p` for a random list stamped `then` that round-trips standalone (others are recorded as round-trip events).
+fn good_beacon(rng: &mut rand::rngs::StdRng, t: &mut Trace, st: &mut RtStat, p: &PwCtx, then: u32, allow_empty: bool) -> (String, Vec<SocketAddr>) {
+    for attempt in 0.. {
+        let (n4, n6) = (rng.gen_range(0..=3usize), rng.gen_range(0..=2usize));
+        let list = if allow_empty && rng.gen_range(0..12) == 0 { vec![] } else { rand_list(rng, n4.max(1 - n6.min(1)), n6) };
+        set_hour(then, rng);
+        let text = p.ser.encode(&list);
+        let (res, got, _) = decode(&p.ser, &text, NO_LIMIT);
+        let mut g = strs(&got);
+        let mut a = strs(&list);
+        g.sort();
+        a.sort();
+        if res == "ok" && g == a {
+            return (text, list);
+        }
+        roundtrip_event(t, st, &p.ser, p.id as usize, then, NO_LIMIT, &list, "embed-candidate");
+        if attempt >= 8 {
+            // round trips fail systematically: use the beacon as it is (the embedding event will be judged as well)
+            return (text, list);
+        }
+    }
+    unreachable!()
+}
+
+struct Built {
+    text: String,
+    tokens: Vec<Value>,
+    clean: bool,
+}
+
+/// Instantiate a sequence of token kinds for password `p` read at hour `now` with limit `ttl`.
+fn build(rng: &mut rand::rngs::StdRng, t: &mut Trace, st: &mut RtStat, p: &PwCtx, other: &PwCtx, kinds: &[&str], now: u32, ttl: u32) -> Option<Built> {
+    // the genuine beacons are fixed, junk is regenerated until the marker occurrences are the intended ones
+    let mut fixed: Vec<Option<(String, Vec<SocketAddr>)>> = vec![];
+    for k in kinds {
+        fixed.push(match *k {
+            "beacon" => {
+                let d = if ttl >= NO_LIMIT { rng.gen_range(0..65536) } else { rng.gen_range(0..=ttl.min(32767)) };
+                let then = if rng.gen_bool(0.5) { (now + d) % 65536 } else { fwd(now, d) };
+                Some(good_beacon(rng, t, st, p, then, true))
+            }
+            "old" => {
+                // outside the limit in either direction: distance in ttl+1 ..= 65535-ttl
+                let d = rng.gen_range(ttl + 1..=65535 - ttl);
+                Some(good_beacon(rng, t, st, p, (now + d) % 65536, false))
+            }
+            "wrongpw" => {
+                set_hour(now, rng);
+                let list = rand_list(rng, 1, 1);
+                Some((other.ser.encode(&list), list))
+            }
+            _ => None,
+        });
+    }
+    for _attempt in 0..30 {
+        let mut text = String::new();
+        let mut tokens = vec![];
+        let mut want_b: Vec<usize> = vec![];
+        let mut want_e: Vec<usize> = vec![];
+        let mut off = 0usize; // length of the sanitized text so far
+        for (i, k) in kinds.iter().enumerate() {
+            let mut addrs: Vec<String> = vec![];
+            let piece: String = match *k {
+                "junk" => rand_alnum(rng, 1, 12),
+                "sep" => rand_sep(rng),
+                "beacon" | "old" => {
+                    let (b, list) = fixed[i].as_ref().unwrap();
+                    want_b.push(off);
+                    want_e.push(off + b.len() - 5);
+                    if *k == "beacon" {
+                        addrs = strs(list);
+                    }
+                    if rng.gen_bool(0.5) {
+                        interleave(rng, b)
+                    } else {
+                        b.clone()
+                    }
+                }
+                "wrongpw" => fixed[i].as_ref().unwrap().0.clone(),
+                "begin" => {
+                    want_b.push(off);
+                    p.m.begin.clone()
+                }
+                "end" => {
+                    want_e.push(off);
+                    p.m.end.clone()
+                }
+                "pbegin" | "pend" => {
+                    let m = if *k == "pbegin" { &p.m.begin } else { &p.m.end };
+                    let c = rng.gen_range(1..=4);
+                    if rng.gen_bool(0.5) {
+                        m[..c].to_string()
+                    } else {
+                        m[c..].to_string()
+                    }
+                }
+                "ovbe" => {
+                    want_b.push(off);
+                    want_e.push(off + 5 - p.ov_be);
+                    format!("{}{}", p.m.begin, &p.m.end[p.ov_be..])
+                }
+                "oveb" => {
+                    want_e.push(off);
+                    want_b.push(off + 5 - p.ov_eb);
+                    format!("{}{}", p.m.end, &p.m.begin[p.ov_eb..])
+                }
+                other => panic!("unknown token kind {}", other),
+            };
+            off += sanitized(&piece).len();
+            text.push_str(&piece);
+            tokens.push(json!({"k": k, "a": addrs}));
+        }
+        let san = sanitized(&text);
+        want_b.sort();
+        want_e.sort();
+        if occurrences(&san, &p.m.begin) == want_b && occurrences(&san, &p.m.end) == want_e {
+            return Some(Built { text, tokens, clean: true });
+        }
+    }
+    None
+}
+
+fn kinds_of(mut idx: usize, len: usize) -> Vec<&'static str> {
+    let mut v = vec![];
+    for _ in 0..len {
+        v.push(ALPHA[idx % ALPHA.len()]);
+        idx /= ALPHA.len();
+    }
+    v
+}
+
+pub fn run_embed(quick: bool, out: &str) -> Value {
+    let mut t = Trace::create(out);
+    let mut rng = rng(172);
+    let mut st = RtStat { events: 0, lost: 0 };
+    let pws: Vec<PwCtx> = passwords().iter().enumerate().map(|(i, k)| pwctx(i as i64, k)).filter(|p| p.m.begin != p.m.end).collect();
+    // passwords whose markers overlap (searched: about 1 in 62 each, 1 in 3844 both)
+    let (mut pool_be, mut pool_eb, mut pool_both): (Vec<PwCtx>, Vec<PwCtx>, Vec<PwCtx>) = (vec![], vec![], vec![]);
+    let mut searched = 0u64;
+    for i in 0..400000u64 {
+        if pool_be.len() >= 6 && pool_eb.len() >= 6 && pool_both.len() >= 2 {
+            break;
+        }
+        searched += 1;
+        let p = pwctx(1000 + i as i64, format!("ov{}", i).as_bytes());
+        if p.m.begin == p.m.end {
+            continue;
+        }
+        if p.ov_be > 0 && p.ov_eb > 0 {
+            if pool_both.len() < 2 {
+                pool_both.push(p);
+            }
+        } else if p.ov_be > 0 {
+            if pool_be.len() < 6 {
+                pool_be.push(p);
+            }
+        } else if p.ov_eb > 0 && pool_eb.len() < 6 {
+            pool_eb.push(p);
+        }
+    }
+    let (mut embeds, mut skipped, mut panics) = (0u64, 0u64, 0u64);
+    let full_len = if quick { 3 } else { 5 };
+    let mut seqs: Vec<Vec<&'static str>> = vec![];
+    for len in 0..=full_len {
+        for idx in 0..ALPHA.len().pow(len as u32) {
+            seqs.push(kinds_of(idx, len));
+        }
+    }
+    let nrand = if quick { 5000 } else { 0 };
+    for i in 0..nrand {
+        let len = if i % 4 == 0 && full_len < 4 { 4 } else { 5 };
+        seqs.push(kinds_of(rng.gen_range(0..ALPHA.len().pow(len as u32)), len));
+    }
+    for (n, kinds) in seqs.iter().enumerate() {
+        let (has_be, has_eb) = (kinds.contains(&"ovbe"), kinds.contains(&"oveb"));
+        let p: &PwCtx = match (has_be, has_eb) {
+            (true, true) => &pool_both[n % pool_both.len()],
+            (true, false) => {
+                if n % 5 == 0 {
+                    &pool_both[n % pool_both.len()]
+                } else {
+                    &pool_be[n % pool_be.len()]
+                }
+            }
+            (false, true) => &pool_eb[n % pool_eb.len()],
+            _ => match n % 7 {
+                0 => &pool_be[n % pool_be.len()],
+                1 => &pool_eb[n % pool_eb.len()],
+                _ => &pws[n % pws.len()],
+            },
+        };
+        let other = &pws[(n * 7 + 3) % pws.len()];
+        if other.id == p.id {
+            continue;
+        }
+        let now = match rng.gen_range(0..6) {
+            0 => 0,
+            1 => 65535,
+            _ => rng.gen_range(0..65536),
+        };
+        let ttl = if kinds.contains(&"old") { *[0u32, 1, 50, 50, 24, 32767, 1000].choose(&mut rng).unwrap() } else { *[0u32, 50, 50, 32768, 65535, NO_LIMIT].choose(&mut rng).unwrap() };
+        match build(&mut rng, &mut t, &mut st, p, other, kinds, now, ttl) {
+            None => {
+                skipped += 1;
+                t.ev(json!({"op":"skip","why":"marker occurrences could not be controlled"}));
+            }
+            Some(b) => {
+                set_hour(now, &mut rng);
+                let (res, got, why) = decode(&p.ser, &b.text, ttl);
+                embeds += 1;
+                panics += (res == "panic") as u64;
+                let _ = b.clean;
+                t.ev(json!({"op":"embed","pw":p.id,"now":now,"ttl":ttl,"tokens":b.tokens,"got":strs(&got),"res":res,"why":why,"text":b.text,
+                    "begin":p.m.begin,"end":p.m.end}));
+            }
+        }
+    }
+    // beacons of another password
+    let mut wrong = 0u64;
+    let nwrong = if quick { 2000 } else { 20000 };
+    for i in 0..nwrong {
+        let a = &pws[i % pws.len()];
+        let b = &pws[(i / pws.len() * 13 + i + 1 + i % 17) % pws.len()];
+        if a.id == b.id {
+            continue;
+        }
+        let now = rng.gen_range(0..65536);
+        set_hour(now, &mut rng);
+        let (w4, w6) = (rng.gen_range(1..=4), rng.gen_range(0..=2));
+        let list = rand_list(&mut rng, w4, w6);
+        let text = a.ser.encode(&list);
+        let san = sanitized(&text);
+        if !occurrences(&san, &b.m.begin).is_empty() && !occurrences(&san, &b.m.end).is_empty() {
+            t.ev(json!({"op":"skip","why":"markers of the reader occur in the other password's beacon"}));
+            continue;
+        }
+        let ttl = *[NO_LIMIT, 50, 65535].choose(&mut rng).unwrap();
+        let (res, got, why) = decode(&b.ser, &text, ttl);
+        wrong += 1;
+        t.ev(json!({"op":"wrongpw","pw":b.id,"made_by":a.id,"now":now,"ttl":ttl,"n":list.len(),"got":strs(&got),"res":res,"why":why,"text":text}));
+    }
+    // arbitrary text: fragments of everything, only "no panic" is demanded
+    let mut texts = 0u64;
+    let ntext = if quick { 6000 } else { 60000 };
+    let mut all: Vec<&PwCtx> = pws.iter().collect();
+    all.extend(pool_be.iter());
+    all.extend(pool_eb.iter());
+    all.extend(pool_both.iter());
+    for i in 0..ntext {
+        let p = all[(i * 31 + i / 3) % all.len()];
+        let now = rng.gen_range(0..65536);
+        set_hour(now, &mut rng);
+        let (w4, w6) = (rng.gen_range(0..=2), rng.gen_range(0..=1));
+        let beacon = p.ser.encode(&rand_list(&mut rng, w4, w6));
+        let mut text = String::new();
+        let nfrag = rng.gen_range(0..=8);
+        for _ in 0..nfrag {
+            let c = rng.gen_range(1..=4);
+            match rng.gen_range(0..14) {
+                0 => text.push_str(&p.m.begin),
+                1 => text.push_str(&p.m.end),
+                2 => text.push_str(&p.m.begin[..c]),
+                3 => text.push_str(&p.m.end[c..]),
+                4 => text.push_str(&p.m.end[..c]),
+                5 => text.push_str(&p.m.begin[c..]),
+                6 => text.push_str(&rand_alnum(&mut rng, 1, 8)),
+                7 => text.push_str(&rand_sep(&mut rng)),
+                8 => text.push_str(&beacon),
+                9 => {
+                    let cut = rng.gen_range(0..=beacon.len());
+                    text.push_str(&beacon[..cut])
+                }
+                10 => {
+                    let cut = rng.gen_range(0..=beacon.len());
+                    text.push_str(&beacon[cut..])
+                }
+                11 => text.push(char::from_u32(rng.gen_range(0x20..0x2fff)).unwrap_or('x')),
+                12 => text.push_str(&p.m.end[1..]),
+                _ => text.push_str(&p.m.begin[..4]),
+            }
+        }
+        let san = sanitized(&text);
+        let (ob, oe) = (occurrences(&san, &p.m.begin), occurrences(&san, &p.m.end));
+        let ovl = ob.iter().any(|b| oe.iter().any(|e| e >= b && *e < b + 5));
+        let ttl = *[NO_LIMIT, 50, 0].choose(&mut rng).unwrap();
+        let (res, got, why) = decode(&p.ser, &text, ttl);
+        texts += 1;
+        panics += (res == "panic") as u64;
+        t.ev(json!({"op":"text","pw":p.id,"ttl":ttl,"ovl":ovl,"got_n":got.len(),"res":res,"why":why,"text":text,"begin":p.m.begin,"end":p.m.end}));
+    }
+    let events = t.finish();
+    json!({"runs": embeds + wrong + texts, "steps": embeds + wrong + texts, "events": events, "embeds": embeds, "skipped": skipped, "wrongpw": wrong,
+           "texts": texts, "panics": panics, "overlap_password_search": searched, "sequences": seqs.len(),
+           "candidate_beacons_lost": st.lost, "pools": [pool_be.len(), pool_eb.len(), pool_both.len()]})
+}
+
+pub fn run(args: &[String]) -> Value {
+    let a = |i: usize| args.get(i).map(|s| s.as_str()).unwrap_or("");
+    let quick = a(1) != "thorough";
+    let _ = KINDS;
+    match a(0) {
+        "roundtrip" => run_roundtrip(quick, a(2)),
+        "age" => run_age(quick, a(2)),
+        "embed" => run_embed(quick, a(2)),
+        _ => json!({"error": "usage: beacon <roundtrip|age|embed> <quick|thorough> <trace.ndjson>"}),
+    }
 }
